@@ -97,6 +97,9 @@ def req_line(r):
     raise ValueError(op)
 
 
+CLASS_ATTRS = (1, 4)
+
+
 def cip_path(path):
     segs = []
     for k, v in path:
@@ -265,6 +268,19 @@ class Device:
                         items.append(f"{c}.{i}.{a}={hexs(attr.produce())}")
                     except Exception:
                         items.append(f"{c}.{i}.{a}=X")
+        # the class-level instance (0) every CIP class gets: its static attributes Revision (1) and Optional Attributes (4)
+        # (Max Instance / Num Instances depend on what the interpreter created before, see device.lookup_reset)
+        classes = []
+        for c, _i in objs:
+            if c not in classes:
+                classes.append(c)
+        for c in classes:
+            for a in CLASS_ATTRS:
+                attr = self.device.lookup(c, 0, a)
+                try:
+                    items.append(f"{c}.0.{a}={hexs(attr.produce())}")
+                except Exception:
+                    items.append(f"{c}.0.{a}=X")
         return ",".join(items) if items else "-"
 
 
